@@ -97,7 +97,9 @@ class DeferredXMLRPCResponse:
 
     def getresponse(self, body):
         self.request['Content-Type'] = 'text/xml'
-        self.request['Content-Length'] = len(body)
+        # the length of what goes on the wire (the body is encoded when it
+        # is sent), not the number of characters
+        self.request['Content-Length'] = len(as_bytes(body))
         self.request.push(body)
         connection = get_header(self.CONNECTION, self.request.header)
 
